@@ -141,6 +141,7 @@ deriving Repr
 structure ConnEnd where
   state : Nat
   delay : Nat            -- connection.DelayPeriod (ns)
+  cpPrefix : Bytes       -- connection.Counterparty.Prefix.KeyPrefix (the counterparty's store name)
 deriving Repr
 
 /-- what the 02-client keeper and the 07-tendermint client read about the client and the proof height -/
@@ -158,24 +159,42 @@ structure ProofFacts where
   height : Height                  -- msg.ProofHeight
   builtAt : Height                 -- the proof height the submitted bytes were queried for
   intact : Bool                    -- bytes not corrupted after the query
-  readKey : Bytes                  -- counterparty store key the bytes were queried for
-  provenValue : Option Bytes       -- counterparty store content under readKey at builtAt (state after block builtAt−1)
+  store : Bytes                    -- name of the counterparty's store the bytes were queried from ("ibc")
+  readKey : Bytes                  -- key inside that store the bytes were queried for
+  provenValue : Option Bytes       -- store content under readKey at builtAt (state after block builtAt−1)
 deriving Repr
 
-/-- "the ICS-23 membership proof verifies for (key, value) at the message's proof height" -/
-def ProofFacts.proves (p : ProofFacts) (key value : Bytes) : Bool :=
-  p.intact && decide (p.builtAt = p.height) && decide (p.readKey = key) && decide (p.provenValue = some value)
+/-- "the ICS-23 membership proof verifies for (merkle path, value) at the message's proof height":
+    the path the handler built must be exactly [store name, key] the proof was queried for -/
+def ProofFacts.proves (p : ProofFacts) (path : List Bytes) (value : Bytes) : Bool :=
+  p.intact && decide (p.builtAt = p.height) && decide ([p.store, p.readKey] = path) && decide (p.provenValue = some value)
+
+/-- v1 `ApplyPrefix(connection.Counterparty.Prefix, NewMerklePath(key))` -/
+def pathV1 (cpPrefix key : Bytes) : List Bytes := [cpPrefix, key]
+
+/-- v2 `BuildMerklePath(counterparty.MerklePrefix, key)`: the key is appended to the *last* prefix element
+    (an empty prefix panics in the code and is rejected at registration; it never occurs) -/
+def pathV2 (pre : List Bytes) (key : Bytes) : List Bytes :=
+  match pre.getLast? with
+  | some l => pre.dropLast ++ [l ++ key]
+  | none => [key]
 
 /-- 02-client `VerifyMembership` (status gate) followed by 07-tendermint `verifyMembership`
     (latest-height gate, delay periods, unmarshal, consensus state, ICS-23).  `none` = verified. -/
-def verifyMembership (env : Env) (c : ClientFacts) (p : ProofFacts) (dt db : Nat) (key value : Bytes) : Option Err :=
+def verifyMembership (env : Env) (c : ClientFacts) (p : ProofFacts) (dt db : Nat) (path : List Bytes) (value : Bytes) : Option Err :=
   if !c.active then some .clientNotActive
   else if c.latest.lt p.height then some .invalidHeight
   else if Delay.verifyDelayPeriodPassed env.nowNs env.self c.procTime c.procHeight dt db != .ok then some .delay
   else if !c.decodes then some .proof
   else if !c.consFound then some .consNotFound
-  else if !p.proves key value then some .proof
+  else if !p.proves path value then some .proof
   else none
+
+/-- 03-connection `VerifyPacketCommitment` / `VerifyPacketAcknowledgement`: block delay from the time
+    delay, `ApplyPrefix` (an empty prefix is ErrInvalidPrefix, codespace commitment), then the client keeper -/
+def verifyV1 (env : Env) (c : ClientFacts) (p : ProofFacts) (cn : ConnEnd) (maxTimePerBlock : Nat) (key value : Bytes) : Option Err :=
+  if cn.cpPrefix.isEmpty then some .proof
+  else verifyMembership env c p cn.delay (Delay.getBlockDelay cn.delay maxTimePerBlock) (pathV1 cn.cpPrefix key) value
 
 /-! ### v1 receive -/
 
@@ -226,8 +245,7 @@ def recvV1 (H : Bytes → Bytes) (f : RecvV1) : Verdict :=
   need f.conn .connNotFound fun cn =>
   check (decide (cn.state = STATE_OPEN)) .connState <|
   check (!f.pkt.timeout.elapsed f.env.self (UInt64.ofNat f.env.nowNs)) .timeout <|
-  pass (verifyMembership f.env f.client f.proof cn.delay (Delay.getBlockDelay cn.delay f.maxTimePerBlock)
-          f.key (Commit.commitV1 H f.pkt.committed)) <|
+  pass (verifyV1 f.env f.client f.proof cn f.maxTimePerBlock f.key (Commit.commitV1 H f.pkt.committed)) <|
   replayV1 f ch
 
 /-! ### v1 acknowledgement -/
@@ -272,8 +290,7 @@ def ackV1 (H : Bytes → Bytes) (f : AckV1) : Verdict :=
   if f.commitment.isEmpty then .noop else
   check f.ackCanonical .invalidAck <|
   check (decide (f.commitment = Commit.commitV1 H f.pkt.committed)) .invalidPacket <|
-  pass (verifyMembership f.env f.client f.proof cn.delay (Delay.getBlockDelay cn.delay f.maxTimePerBlock)
-          f.key (Commit.commitAckV1 H f.ack)) <|
+  pass (verifyV1 f.env f.client f.proof cn f.maxTimePerBlock f.key (Commit.commitAckV1 H f.ack)) <|
   if ch.ordering = ORDER_ORDERED then
     need f.nextAck .seqNotFound fun n =>
       check (decide (f.pkt.seq.toNat = n)) .outOfOrder .ok
@@ -329,6 +346,7 @@ def ackV2Valid (H : Bytes → Bytes) (acks : List Bytes) : Bool :=
 
 structure CpV2 where
   clientId : Bytes               -- counterparty.ClientId
+  pre : List Bytes               -- counterparty.MerklePrefix
 deriving Repr
 
 /-! ### v2 receive -/
@@ -364,7 +382,7 @@ def recvV2 (H : Bytes → Bytes) (f : RecvV2) : Verdict :=
   check (decide (nowSecs f.env < f.pkt.timeout.toNat)) .timeout <|
   -- already received: NOOP *before* any proof is looked at
   if f.receipt then .noop else
-  pass (verifyMembership f.env f.client f.proof 0 0 f.key (Commit.commitV2 H f.pkt.committed)) <|
+  pass (verifyMembership f.env f.client f.proof 0 0 (pathV2 cp.pre f.key) (Commit.commitV2 H f.pkt.committed)) <|
   .ok
 
 /-! ### v2 acknowledgement -/
@@ -396,7 +414,7 @@ def ackV2 (H : Bytes → Bytes) (f : AckV2) : Verdict :=
   check (decide (cp.clientId = f.pkt.dstClient)) .cpMismatch <|
   if f.commitment.isEmpty then .noop else
   check (decide (f.commitment = Commit.commitV2 H f.pkt.committed)) .invalidPacket <|
-  pass (verifyMembership f.env f.client f.proof 0 0 f.key (Commit.commitAckV2 H f.acks)) <|
+  pass (verifyMembership f.env f.client f.proof 0 0 (pathV2 cp.pre f.key) (Commit.commitAckV2 H f.acks)) <|
   .ok
 
 end IbcVerif.Relay
